@@ -121,6 +121,9 @@ def model_judge(summary, answer):
         diffs.append({"leg": "heap-p-iso-heap-q", "detail": {"lean": r["iso_p_q"], "python": summary.get("py_iso")}})
     if r["nokeycycle"] is not True:
         diffs.append({"leg": "nokeycycle", "detail": r["nokeycycle"]})
+    if r.get("all_visited") is not True:
+        # the proviso of theorem redump_after_load: the pickler memoises as many objects as the exported heap has cells
+        diffs.append({"leg": "redump-proviso-all-cells-visited", "detail": r.get("all_visited")})
     if r["unready"] != 0:
         diffs.append({"leg": "unready-keys", "detail": r["unready"]})
     summary["nokeycycle"], summary["unready"] = r["nokeycycle"], r["unready"]
